@@ -629,10 +629,14 @@ func computeRenames(c *Ctx, g *goldenNames) *renameSet {
 				continue
 			}
 			_, crest := flat(canonStr(ce.Recv), canonStr(ce.Sig))
-			if crest != grest {
-				continue
-			}
 			s := jaccard(gm.Feats, canonFeat(ce.Feats))
+			if crest != grest {
+				// the parameters became fields of the new receiver (or the reverse): only
+				// with a very similar body, and only the name is carried over
+				if s < 0.7 || len(gm.Feats) < 5 {
+					continue
+				}
+			}
 			if s > best {
 				second, best, bestN = best, s, e
 			} else if s > second {
